@@ -170,6 +170,19 @@ def model_check(moddir, module, cfg, timeout=900, workers="auto", coverage=False
     return r
 
 
+def model_rejects(moddir, module, cfg, invariant, timeout=900, workers="auto"):
+    """The model with a variant switch set to the behaviour of the code *before* a repair must
+    violate the named invariant (or deadlock, invariant="deadlock"): the invariants are not
+    vacuous with respect to that defect.  Anything else is a defect of the model: Infra."""
+    r = run_tlc(moddir, module, cfg, timeout=timeout, workers=workers)
+    want = "Deadlock reached" if invariant == "deadlock" else "Invariant %s is violated" % invariant
+    if want not in r.out:
+        tail = "\n".join(r.out.splitlines()[-40:])
+        raise Infra("model variant %s/%s %s was expected to violate %s:\n%s" % (moddir, module, cfg, invariant, tail))
+    log("TLC %s/%s [%s]: variant rejected as expected (%s), %.1fs" % (moddir, module, cfg, invariant, r.wall))
+    return r
+
+
 def generate(moddir, module, cfg, timeout=900, workers=1, simulate=None):
     """Run a generation config; the spec prints scenarios as "VERIF-GEN <json>" lines."""
     r = run_tlc(moddir, module, cfg, timeout=timeout, workers=workers, simulate=simulate)
@@ -365,6 +378,12 @@ class Ctx:
         self.mc.append(dict(spec="%s/%s" % (moddir, module), cfg=cfg, states_generated=r.states,
                             distinct_states=r.distinct, depth=r.depth, wall_s=round(r.wall, 1),
                             coverage={k: v for k, v in sorted(r.coverage.items())[:80]} if r.coverage else None))
+        return r
+
+    def mrejects(self, moddir, module, cfg, invariant, **kw):
+        r = model_rejects(moddir, module, cfg, invariant, **kw)
+        self.mc.append(dict(spec="%s/%s" % (moddir, module), cfg=cfg, expected_violation=invariant,
+                            states_generated=r.states, distinct_states=r.distinct, wall_s=round(r.wall, 1)))
         return r
 
     def gen(self, moddir, module, cfg, **kw):
